@@ -213,18 +213,21 @@ impl<'tcx> Ctx<'tcx> {
 
     fn bytes_of_const(&self, val: ConstValue, ty: Ty<'tcx>) -> Option<Vec<u8>> {
         // &str / &[u8] slices
-        if let (ConstValue::Slice { .. }, TyKind::Ref(_, inner, _)) = (&val, ty.kind()) {
+        // (a named `const K: &[u8] = b"..";` evaluates to an indirect value, a literal to a slice value)
+        if let TyKind::Ref(_, inner, _) = ty.kind() {
             let ok = match inner.kind() {
                 TyKind::Str => true,
                 TyKind::Slice(e) => *e == self.tcx.types.u8,
                 _ => false,
             };
             if ok {
-                if let Some(b) = val.try_get_slice_bytes_for_diagnostics(self.tcx) {
-                    return Some(b.to_vec());
+                if let ConstValue::Slice { .. } | ConstValue::Indirect { .. } = &val {
+                    if let Some(b) = val.try_get_slice_bytes_for_diagnostics(self.tcx) {
+                        return Some(b.to_vec());
+                    }
                 }
+                return None;
             }
-            return None;
         }
         // &[u8; N]
         if let TyKind::Ref(_, inner, _) = ty.kind() {
